@@ -12,6 +12,7 @@
 //	engine 1  weighted-graph engine, command layer (commands.CheckQueryV2, strategy forced),
 //	engine 2  real server (Check / BatchCheck / ListObjects API), default engine,
 //	engine 3  real server with the experimental flag weighted_graph_check,
+//	engine 4  engine 0's ListObjects steps with the experimental flag enable-list-objects-optimizations,
 //
 // each WITHOUT the Check query cache (reference; twice, to recognise answers that are unstable on
 // their own) and WITH one shared cache (several runs: goroutine order decides what gets cached).
@@ -36,11 +37,14 @@ import (
 
 	"github.com/oklog/ulid/v2"
 	openfgav1 "github.com/openfga/api/proto/openfga/v1"
+	"github.com/prometheus/client_golang/prometheus"
+	dto "github.com/prometheus/client_model/go"
 	"google.golang.org/grpc/status"
 	"google.golang.org/protobuf/types/known/structpb"
 
 	"github.com/openfga/openfga/internal/cachecontroller"
 	"github.com/openfga/openfga/internal/check"
+	checkmetrics "github.com/openfga/openfga/internal/check/metrics"
 	"github.com/openfga/openfga/internal/condition"
 	"github.com/openfga/openfga/pkg/featureflags"
 	"github.com/openfga/openfga/internal/graph"
@@ -239,6 +243,12 @@ type dumpEntry struct {
 // ---- engine 0: default engine, command layer ----------------------------------------------------
 
 func (c *caseEnv) runV1(ctx context.Context, cached bool, universe []string, subjects []string) ([]obs, []dumpEntry) {
+	return c.runV1x(ctx, cached, false, universe, subjects)
+}
+
+// runV1x: optList = ListObjects steps run with the experimental flag enable-list-objects-optimizations
+// (engine 4; the other steps are skipped).
+func (c *caseEnv) runV1x(ctx context.Context, cached, optList bool, universe []string, subjects []string) ([]obs, []dumpEntry) {
 	p := c.p
 	var cache storage.InMemoryCache[any]
 	opts := []graph.CheckResolverOrderedBuilderOpt{
@@ -266,6 +276,19 @@ func (c *caseEnv) runV1(ctx context.Context, cached bool, universe []string, sub
 	var out []obs
 	for _, st := range p.Steps {
 		cctx, cancel := context.WithTimeout(ctx, 20*time.Second)
+		if optList && st.Kind != "list" {
+			n := 1
+			if st.Kind == "batch" {
+				n = len(st.Items)
+			}
+			o := obs{}
+			for i := 0; i < n; i++ {
+				o.Classes = append(o.Classes, cSkipped)
+			}
+			out = append(out, o)
+			cancel()
+			continue
+		}
 		switch st.Kind {
 		case "check":
 			w := p.Worlds[st.Item.W]
@@ -306,9 +329,13 @@ func (c *caseEnv) runV1(ctx context.Context, cached bool, universe []string, sub
 		case "list":
 			w := p.Worlds[st.Item.W]
 			e := c.env(w)
+			var flags []string
+			if optList {
+				flags = []string{serverconfig.ExperimentalListObjectsOptimizations}
+			}
 			q, err := commands.NewListObjectsQuery(e.DS, resolver, e.StoreID,
-				commands.WithFeatureFlagClient(featureflags.NewDefaultClient(nil)), commands.WithListObjectsPipelineEnabled(false),
-				commands.WithListObjectsDeadline(20*time.Second), commands.WithListObjectsMaxResults(0),
+				commands.WithFeatureFlagClient(featureflags.NewDefaultClient(flags)), commands.WithListObjectsPipelineEnabled(false),
+				commands.WithListObjectsDeadline(20*time.Second), commands.WithListObjectsMaxResults(1000), // 0 would swallow errors (C05 limit0_error_swallowed)
 				commands.WithResolveNodeLimit(uint32(p.Depth)), commands.WithListObjectsCache(res, settings))
 			if err != nil {
 				panic(err)
@@ -329,7 +356,7 @@ func (c *caseEnv) runV1(ctx context.Context, cached bool, universe []string, sub
 		cancel()
 	}
 	var dump []dumpEntry
-	if cached {
+	if cached && !optList {
 		time.Sleep(2 * time.Millisecond) // theine applies writes asynchronously
 		for wi, w := range p.Worlds {
 			e := c.env(w)
@@ -692,6 +719,17 @@ func makePlan(r *rec.Rand, s *scen.Scenario, tier string) *Plan {
 		p.Engines = []int{0, 1, 2, 3}
 	}
 	p.ModelB = modelB(r, s)
+	defer func() {
+		nl := 0
+		for _, st := range p.Steps {
+			if st.Kind == "list" {
+				nl++
+			}
+		}
+		if nl >= 2 && r.Chance(1, 2) {
+			p.Engines = append(p.Engines, 4)
+		}
+	}()
 	// worlds
 	pool := ctPool(r, s)
 	ctxs := []World{{HasCtx: s.ReqCtx != nil, Ctx: s.ReqCtx}}
@@ -700,8 +738,14 @@ func makePlan(r *rec.Rand, s *scen.Scenario, tier string) *Plan {
 	}
 	p.Worlds = []World{ctxs[0]}
 	nw := r.Range(0, 3)
+	if len(s.Conds) > 0 {
+		nw = r.Range(1, 3)
+	}
 	for i := 0; i < nw; i++ {
 		w := rec.Pick(r, ctxs)
+		if len(s.Conds) > 0 {
+			w = ctxs[1+(i+r.Intn(2))%3] // a context that differs from the scenario's, mostly
+		}
 		if len(s.Conds) == 0 && r.Chance(2, 3) {
 			w = ctxs[0]
 		}
@@ -841,7 +885,29 @@ func makePlan(r *rec.Rand, s *scen.Scenario, tier string) *Plan {
 		}
 		return 0
 	}
+	sweep := len(p.Worlds) > 1 && r.Chance(2, 3)
 	for i := 0; i < len(order); i++ {
+		if sweep && r.Chance(1, 4) {
+			// the same request in every world, back to back: only the invariant part of the key differs
+			u := rec.Pick(r, focus)
+			ws := make([]int, len(p.Worlds))
+			for k := range ws {
+				ws[k] = k
+			}
+			rec.Shuffle(r, ws)
+			asList := p.Depth >= 25 && r.Chance(1, 3)
+			for _, wk := range ws {
+				it := mkItem(order[i], wk, u)
+				if asList {
+					it.Type, _ = scen.SplitObj(it.Obj)
+					it.Obj = ""
+					p.Steps = append(p.Steps, Step{Kind: "list", Item: it})
+				} else {
+					p.Steps = append(p.Steps, Step{Kind: "check", Item: it})
+				}
+			}
+			continue
+		}
 		u := focus[0]
 		if len(focus) > 1 && r.Chance(1, 4) {
 			u = rec.Pick(r, focus)
@@ -1059,9 +1125,13 @@ func runCase(ctx context.Context, w *rec.Writer, s *scen.Scenario, p *Plan) {
 				unc = append(unc, c.runServer(ctx, false, false))
 			case 3:
 				unc = append(unc, c.runServer(ctx, false, true))
+			case 4:
+				o, _ := c.runV1x(ctx, false, true, universe, subjects)
+				unc = append(unc, o)
 			}
 		}
 		for k := 0; k < p.Runs; k++ {
+			before := readCounters()
 			switch eng {
 			case 0:
 				o, d := c.runV1(ctx, true, universe, subjects)
@@ -1073,6 +1143,85 @@ func runCase(ctx context.Context, w *rec.Writer, s *scen.Scenario, p *Plan) {
 				cac = append(cac, c.runServer(ctx, true, false))
 			case 3:
 				cac = append(cac, c.runServer(ctx, true, true))
+			case 4:
+				o, _ := c.runV1x(ctx, true, true, universe, subjects)
+				cac = append(cac, o)
+			}
+			after := readCounters()
+			hits, inv := after.hits-before.hits, after.invalid-before.invalid
+			w.Stat(fmt.Sprintf("engine%d_cache_lookups", eng), after.lookups-before.lookups)
+			w.Stat(fmt.Sprintf("engine%d_cache_hits", eng), hits)
+			w.Stat(fmt.Sprintf("engine%d_cache_invalid_hits", eng), inv)
+			totalHits += hits
+			cachedRuns++
+			hasList := false
+			for _, st := range p.Steps {
+				hasList = hasList || st.Kind == "list"
+			}
+			// (ListObjects checks its candidates with a CheckQuery that has no cache controller: its
+			// sub-problems are looked up with a zero invalidation time -- not this property's business)
+			if p.Inval && hits > 0 && (eng == 0 || eng == 1) && !hasList {
+				// every entry is older than the invalidation time the cache controller reports
+				w.PropFail(fmt.Sprintf("engine %d: %d cache entries older than LastCacheInvalidationTime were served", eng, hits),
+					map[string]any{"scenario": s, "plan": p})
+			}
+		}
+		// a cached answer that no uncached run gave: before it is blamed on the cache, the reference is
+		// run some more times (answers that are unstable on their own: races between the branches of
+		// the weighted-graph engine, ListObjects meeting a condition error)
+		apiOf := func(c int) int {
+			if c == cDeniedCy {
+				return cDenied
+			}
+			return c
+		}
+		mismatch := func() bool {
+			for si := range p.Steps {
+				for _, run := range cac {
+					for ci, cl := range run[si].Classes {
+						found := false
+						for _, u := range unc {
+							if apiOf(u[si].Classes[ci]) == apiOf(cl) {
+								found = true
+							}
+						}
+						if !found {
+							return true
+						}
+					}
+					same := false
+					for _, u := range unc {
+						if strings.Join(u[si].Objects, ",") == strings.Join(run[si].Objects, ",") {
+							same = true
+						}
+					}
+					if !same {
+						return true
+					}
+				}
+			}
+			return false
+		}
+		if mismatch() {
+			w.Stat(fmt.Sprintf("engine%d_reference_rerun", eng), 1)
+			for k := 0; k < 6; k++ {
+				switch eng {
+				case 0:
+					o, _ := c.runV1(ctx, false, universe, subjects)
+					unc = append(unc, o)
+				case 1:
+					unc = append(unc, c.runV2(ctx, false))
+				case 2:
+					unc = append(unc, c.runServer(ctx, false, false))
+				case 3:
+					unc = append(unc, c.runServer(ctx, false, true))
+				case 4:
+					o, _ := c.runV1x(ctx, false, true, universe, subjects)
+					unc = append(unc, o)
+				}
+			}
+			if !mismatch() {
+				w.Stat(fmt.Sprintf("engine%d_reference_unstable_explains_difference", eng), 1)
 			}
 		}
 		// statistics
@@ -1139,6 +1288,23 @@ func runCase(ctx context.Context, w *rec.Writer, s *scen.Scenario, p *Plan) {
 		rec.I(1), rec.L(models...), rec.L(wvs...), atoms, rec.L(svs...), rec.I(p.Depth), rec.I(flags), rec.L(stepvs...), rec.L(engvs...))
 }
 
+func counterValue(c prometheus.Counter) int {
+	var m dto.Metric
+	if err := c.Write(&m); err != nil {
+		return 0
+	}
+	return int(m.GetCounter().GetValue())
+}
+
+// cache counters of internal/check/metrics (shared by CachedCheckResolver and the weighted-graph engine)
+type cacheCounters struct{ lookups, hits, invalid int }
+
+func readCounters() cacheCounters {
+	return cacheCounters{counterValue(checkmetrics.CacheLookupCounter), counterValue(checkmetrics.CacheHitCounter), counterValue(checkmetrics.CacheInvalidHitCounter)}
+}
+
+var totalHits, cachedRuns int
+
 // number of uncached reference runs per engine (debugging: C08_UNC)
 var uncRuns = 2
 
@@ -1194,6 +1360,9 @@ func main() {
 		}
 		t0 := time.Now()
 		runCase(ctx, w, s, makePlan(rr, s, o.Tier))
+		if i == o.N-1 && cachedRuns >= 200 && totalHits == 0 {
+			w.PropFail("no cache hit in the whole run: the Check query cache is never used (the comparison would be vacuous)", map[string]any{"cached_runs": cachedRuns})
+		}
 		if d := time.Since(t0); d > 5*time.Second {
 			w.Stat("slow_cases", 1)
 			if os.Getenv("C08_DEBUG") != "" {
